@@ -17,7 +17,8 @@ RULE = ("circle: (size, radius, centre, origin) drawn on the dyadic 1/8 grid (ex
         "size. Scatter: random masks/data/dtypes; non-trivial = mask with both 0 and 1 and >=2 frames. Distinct = "
         "distinct canonical JSON of the case."
         " Also: centre as tuple, list or one reused float64 array (must stay unchanged)."
-        " Thresholds above every cell mean (empty selection must be a (0, 2) array).")
+        " Thresholds above every cell mean (empty selection must be a (0, 2) array)."
+        " All-valid masks; the map must not share memory with the slope array.")
 ASSUMPTIONS = ["pixel (row i, col j) has centre (j+1/2, i+1/2); circle_centre = (x, y) = (column, row) offset",
                "non-divisible mask sizes: a cell's bounds may be rounded either way (any of the <=16 candidate "
                "rectangles is accepted), only divisible sizes are judged exactly"]
